@@ -220,6 +220,13 @@ func (c *Ctx) fn(rel, name string) *ssa.Function {
 func (c *Ctx) mustFn(rule, rel, name string) *ssa.Function {
 	f := c.fn(rel, name)
 	if f == nil {
+		last := name[strings.LastIndexByte(name, '.')+1:]
+		if last != "" && last[0] >= 'a' && last[0] <= 'z' {
+			// an unexported helper can be renamed or inlined by a behaviour-preserving edit: the rule cannot
+			// be evaluated, which is an indecision (exit 2), not evidence that the property is broken
+			c.undecided("%s: anchor %s.%s not found (renamed or removed unexported function); rule cannot be evaluated", rule, rel, name)
+			return nil
+		}
 		c.ob(rule, rel+"."+name+"#anchor-missing", token.NoPos, false, "anchor function "+name+" not found in "+rel+": the mechanism this rule checks is absent")
 	}
 	return f
